@@ -534,6 +534,8 @@ class PolygonTensor(PolytopeTensor):
             o = Point(*[0] * self.dim)
             if e.free_indices > 0:
                 ind = ~e.contains(o)
+                e = e.copy()
+                e.array = e.array.copy()
                 e[ind] = cast(PlaneTensor, e[ind]).parallel(o)
             elif not e.contains(o):
                 # use parallel hyperplane for projection to avoid rescaling
